@@ -179,3 +179,83 @@ PROPS["C10"]["e2"] += [E("metadata_helpers", "p_libfs", "lemma_metadata_helpers"
 PROPS["C18"]["e2"] += [E("metadata_helpers", "p_libfs", "lemma_metadata_helpers"), E("copy_worker", "p_workers", "lemma_copy_worker")]
 PROPS["C01"]["e2"] += [E("handle_new", "p_handle", "lemma_handle_new"), E("sparse_segments", "p_libfs", "lemma_sparse_segments"),
                        E("metadata_helpers", "p_libfs", "lemma_metadata_helpers")]
+
+
+WALK_ASSUME = [
+    "walkdir contract: pre-order walk that yields the root first and every descendant after its parent; filter_entry applies the predicate to every entry and prunes rejected directories; "
+    "per-entry induction: the loop body carries no state across entries except the per-source constants (target_base, gitignore)",
+    "paths are abstract structural terms over src/dest/rel (std's path parsing -- trailing slashes, `.`/`..` spellings, non-UTF-8 bytes -- is not interpreted)",
+    "canonicalize() never returns a symbolic link",
+]
+
+PROPS["C02"] = {
+    "engine": "mir-smt", "technique": E2_TECH,
+    "level_text": "tree_walker symbolically executed for the root of a source and one arbitrary descendant, all 8 entry kinds, all flags, every call fallible: "
+                  "emitted operation/target compared with an independent statement of cp's mapping rule; worker arms act on exactly (from, to)",
+    "level_note": "trusted: MIR interpreter, walkdir/std::path summaries (structural path algebra); --glob expansion and multi-byte/odd spellings are outside",
+    "assumptions": L2_ASSUME + WALK_ASSUME,
+    "e2": [E("tree_walker", "p_walker", "lemma_tree_walker"), E("copy_worker", "p_workers", "lemma_copy_worker"),
+           E("dispatch_worker", "p_workers", "lemma_dispatch_worker"), E("main", "p_main", "lemma_main")],
+}
+PROPS["C08"] = {
+    "engine": "mir-smt", "technique": E2_TECH,
+    "level_text": "no-clobber: the walker's probe precedes every action on an entry and a collision ends the walk with an Error update; the workers' second check for special files",
+    "level_note": "trusted: as C02; a dangling symlink at the destination is 'absent' for exists() (noted, outside); races between the probe and other processes are outside",
+    "assumptions": L2_ASSUME + WALK_ASSUME,
+    "e2": [E("tree_walker", "p_walker", "lemma_tree_walker"), E("copy_worker", "p_workers", "lemma_copy_worker"),
+           E("dispatch_worker", "p_workers", "lemma_dispatch_worker"), E("main", "p_main", "lemma_main")],
+}
+PROPS["C13"] = {
+    "engine": "mir-smt", "technique": E2_TECH,
+    "level_text": "--dereference: every walked path is canonicalised before classification, no Link operation can be emitted, resolution failures end the walk; "
+                  "the walk must be told to follow links to directories",
+    "level_note": "trusted: as C02; link chains are the kernel's (canonicalize contract)",
+    "assumptions": L2_ASSUME + WALK_ASSUME,
+    "e2": [E("tree_walker", "p_walker", "lemma_tree_walker")],
+}
+PROPS["C17"] = {
+    "engine": "mir-smt", "technique": E2_TECH,
+    "level_text": "wiring only: the matcher is built from <source>/.gitignore rooted at the source, every walked entry is put to it with its own path and is_dir, "
+                  "an entry is skipped iff the matcher says ignore, nothing else filters, option off => matcher never consulted",
+    "level_note": "git's pattern semantics live in the ignore/globset crates and are trusted (uninterpreted predicate); is_dir() follows symlinks (deviation from git noted in DESIGN.md)",
+    "assumptions": L2_ASSUME + WALK_ASSUME + ["Gitignore::matched is an uninterpreted predicate of (path, is_dir)"],
+    "e2": [E("tree_walker", "p_walker", "lemma_tree_walker")],
+}
+PROPS["C16"] = {
+    "engine": "mir-smt", "technique": E2_TECH,
+    "level_text": "main() symbolically executed for 0..3 positional arguments with/without --target-directory, literal and globbed sources, all flags and file-system probes symbolic: "
+                  "on every path that starts the copy, none of the rejection classes (stated independently over the same atoms) is satisfiable; rejected paths never load a driver",
+    "level_note": "trusted: MIR interpreter; clap's own parsing and the glob crate are outside (Opts::from_args / expand_sources are summarised); 'no side effects' = no callee of main before the spawn mutates (every callee has a read-only summary, unknown callees abort the check)",
+    "assumptions": ["clap rejects unknown flags/values before main's logic runs", "glob expansion either fails or returns a list"],
+    "e2": [E("main", "p_main", "lemma_main"), E("config_from_opts", "p_main", "lemma_config_from_opts")],
+}
+PROPS["C06"] = {
+    "engine": "mir-smt", "technique": E2_TECH,
+    "level_text": "schedule independence by footprint: block jobs of a file write pairwise disjoint ranges (partition lemma, any index) and only inside their own block; "
+                  "finalisation is tied to the last handle reference; worker arms touch only their own (from, to); directories are created synchronously before children are queued; "
+                  "copy() joins every thread",
+    "level_note": "assumed: operations on distinct destination paths commute (footprint argument), Arc/thread::join/channel contracts; two sources mapping onto one target are outside (then the outcome is schedule-dependent)",
+    "assumptions": L2_ASSUME + WALK_ASSUME + ["operations whose footprints are disjoint commute"],
+    "e2": [E("partition", "p_parblock", "lemma_partition"), E("block_job", "p_parblock", "lemma_block_job"),
+           E("queue_file_blocks", "p_parblock", "lemma_queue_file_blocks"), E("copy_worker", "p_workers", "lemma_copy_worker"),
+           E("dispatch_worker", "p_workers", "lemma_dispatch_worker"), E("tree_walker", "p_walker", "lemma_tree_walker"),
+           E("driver_copy", "p_drivers", "lemma_driver_copy")],
+}
+PROPS["C07"] = {
+    "engine": "mir-smt", "technique": BOTH_TECH,
+    "level_text": "termination by progress lemmas: every copy loop strictly advances (inductive steps), the walker drops the only sender on every exit, workers end on a closed queue, "
+                  "the dispatcher joins its pool, copy() joins every thread, main leaves its loop on Error/closure; special files are never opened; Kani unwinding assertions bound the libfs loops",
+    "level_note": "assumed: unbounded channels never block senders; blocking-threadpool workers do not block; real-time bounds are outside",
+    "assumptions": L2_ASSUME + ["std::thread / crossbeam-channel / blocking-threadpool liveness contracts"],
+    "e2": [E("copy_bytes_step", "p_copy", "lemma_copy_bytes"), E("copy_sparse_step", "p_copy", "lemma_copy_sparse"),
+           E("sparse_segments", "p_libfs", "lemma_sparse_segments"), E("tree_walker", "p_walker", "lemma_tree_walker"),
+           E("copy_worker", "p_workers", "lemma_copy_worker"), E("dispatch_worker", "p_workers", "lemma_dispatch_worker"),
+           E("driver_copy", "p_drivers", "lemma_driver_copy"), E("main", "p_main", "lemma_main")],
+}
+PROPS["C01"]["e2"] += [E("config_from_opts", "p_main", "lemma_config_from_opts")]
+PROPS["C03"]["e2"] += [E("main", "p_main", "lemma_main")]
+PROPS["C04"]["e2"] += [E("tree_walker", "p_walker", "lemma_tree_walker"), E("main", "p_main", "lemma_main"), E("driver_copy", "p_drivers", "lemma_driver_copy")]
+PROPS["C12"]["e2"] += [E("tree_walker", "p_walker", "lemma_tree_walker"), E("main", "p_main", "lemma_main"), E("driver_copy", "p_drivers", "lemma_driver_copy")]
+PROPS["C14"]["e2"] += [E("tree_walker", "p_walker", "lemma_tree_walker")]
+PROPS["C20"]["e2"] += [E("driver_copy", "p_drivers", "lemma_driver_copy")]
+NOT_APPLICABLE["C09"] = "in progress: ordering/kill-safety of the backup rename is checked under C03/C04 lemmas; the name-recognition logic (string/regex) is being encoded"
